@@ -99,7 +99,11 @@ def copySymlink (source target : Side) (name : Path) (info : Info) : M Unit := w
     primUnit cfg target (.symlink pointsAt name)
     ignorePerm (primUnit cfg target (.lchown name info.uid info.gid))
 
-/-- `restoreFile(name, backupFi, base, backup)` -/
+/-- `restoreFile(name, backupFi, base, backup)`. When a directory (or link) sits where the
+regular file was, it is taken away with a plain `Remove`, not `RemoveAll`: everything the
+transaction created below it is tracked as absent and has been removed by Rollback's first phase,
+so whatever is still in there was put there by somebody else and must survive (C13). Only when
+the backup copy itself is not a regular file does the code still call `RemoveAll`. -/
 def restoreFile (name : Path) (backupFi : Info) : M Unit := do
   let f ← primOpen cfg .backup (.open_ name)
   let r ← attempt (do
@@ -108,20 +112,23 @@ def restoreFile (name : Path) (backupFi : Info) : M Unit := do
     let replaced := match baseFi with
       | some b => !b.isRegular
       | none => false
-    whenM (!fi.isRegular || replaced) (primUnit cfg .base (.removeAll name))
+    if !fi.isRegular then primUnit cfg .base (.removeAll name)
+    else whenM replaced (primUnit cfg .base (.remove name))
     copyFile cfg .base name backupFi f)
   let _ ← attempt (hClose f)                  -- defer f.Close()
   match r with
   | .ok () => pure ()
   | .error e => M.throw e
 
-/-- `restoreSymlink(name, backupFi, base, backup)` -/
+/-- `restoreSymlink(name, backupFi, base, backup)`. Whatever took the link's place is taken
+away with a plain `Remove`, not `RemoveAll`: what the transaction created below a directory in
+the way is gone after Rollback's first phase, foreign content below it must survive (C13). -/
 def restoreSymlink (name : Path) (backupFi : Info) : M Unit := do
   match ← lexists cfg .backup name with
   | none => M.throw .notExist
   | some _ =>
     let cur ← lexists cfg .base name
-    whenM cur.isSome (primUnit cfg .base (.removeAll name))
+    whenM cur.isSome (primUnit cfg .base (.remove name))
     copySymlink cfg .backup .base name backupFi
 
 /-- `resolvePathWithInfo`: single pass over the ancestor chain, substituting link targets into
